@@ -88,7 +88,7 @@ var plans = map[string]plan{
 	"C08": {Variants: preemptVariants(), QuickRuns: 400, QuickSecs: 70, ThoroughRuns: 40000, ThoroughSecs: 1500},
 	"C17": {Variants: append(append(stdVariants("place")[:2:2], reloadVariants("place")...), stdVariants("quota")[0], stdVariants("maxapps")[0]), QuickRuns: 400, QuickSecs: 70, ThoroughRuns: 40000, ThoroughSecs: 1500},
 	"C19": {Variants: append(append(stdVariants("sort")[:3:3], stdVariants("preempt")[0]), stdVariants("quota")[0], reloadVariants("sort")[0]), QuickRuns: 400, QuickSecs: 70, ThoroughRuns: 40000, ThoroughSecs: 1500},
-	"C09": {Variants: append(stdVariants("base"), stdVariants("gang")[1], stdVariants("gang")[2], stdVariants("gang")[5], preemptVariants()[0], preemptVariants()[1]), QuickRuns: 400, QuickSecs: 70, ThoroughRuns: 40000, ThoroughSecs: 1500},
+	"C09": {Variants: append(stdVariants("base"), stdVariants("gang")[1], stdVariants("gang")[2], stdVariants("gang")[5], preemptVariants()[0], preemptVariants()[0], preemptVariants()[1], preemptVariants()[2], preemptVariants()[4]), QuickRuns: 400, QuickSecs: 70, ThoroughRuns: 40000, ThoroughSecs: 1500},
 	"C10": {Variants: append(append(stdVariants("base"), stdVariants("gang")...), gangSwap), QuickRuns: 400, QuickSecs: 70, ThoroughRuns: 40000, ThoroughSecs: 1500},
 	"C11": {Variants: append(stdVariants("maxapps"), reloadVariants("maxapps")[0], reloadVariants("maxapps")[1]), QuickRuns: 400, QuickSecs: 70, ThoroughRuns: 40000, ThoroughSecs: 1500},
 }
